@@ -19,12 +19,36 @@ import (
 type State struct {
 	pc   string
 	vars map[string]Term
+	// deferred calls registered on this path, per function activation (a defer inside one branch does not run on another)
+	defers map[*Frame][]deferred
+	// path-sensitive lock history: state at the latest acquire (for atlock), per monitor at its acquire / previous release
+	lockSnap *State
+	acq, rel map[string]*State
 }
 
 func (s *State) clone() *State {
 	n := &State{pc: s.pc, vars: make(map[string]Term, len(s.vars)+4)}
 	for k, v := range s.vars {
 		n.vars[k] = v
+	}
+	if len(s.defers) > 0 {
+		n.defers = make(map[*Frame][]deferred, len(s.defers))
+		for k, v := range s.defers {
+			n.defers[k] = append([]deferred(nil), v...)
+		}
+	}
+	n.lockSnap = s.lockSnap
+	if len(s.acq) > 0 {
+		n.acq = make(map[string]*State, len(s.acq))
+		for k, v := range s.acq {
+			n.acq[k] = v
+		}
+	}
+	if len(s.rel) > 0 {
+		n.rel = make(map[string]*State, len(s.rel))
+		for k, v := range s.rel {
+			n.rel[k] = v
+		}
 	}
 	return n
 }
@@ -97,6 +121,7 @@ type Exec struct {
 	allocKinds  map[string]bool
 	axiomText   map[string]string
 	knownLen    map[string]int
+	callOrd     map[*ast.CallExpr]string
 	effRecvType types.Type
 	effSubst    map[*types.TypeParam]types.Type
 	relSnap     map[string]*State
@@ -335,6 +360,44 @@ func (e *Exec) merge(states []*State) *State {
 		}
 		out.vars[k] = Term{e.vc.Define(k, e.Sort(first.T), t), first.T}
 	}
+	for _, s := range live {
+		if out.lockSnap == nil {
+			out.lockSnap = s.lockSnap
+		}
+		for k, v := range s.acq {
+			if out.acq == nil {
+				out.acq = map[string]*State{}
+			}
+			if _, ok := out.acq[k]; !ok {
+				out.acq[k] = v
+			}
+		}
+		for k, v := range s.rel {
+			if out.rel == nil {
+				out.rel = map[string]*State{}
+			}
+			if _, ok := out.rel[k]; !ok {
+				out.rel[k] = v
+			}
+		}
+	}
+	for _, s := range live {
+		for f, l := range s.defers {
+			if out.defers == nil {
+				out.defers = map[*Frame][]deferred{}
+			}
+			if cur, ok := out.defers[f]; !ok || len(l) > len(cur) {
+				out.defers[f] = l
+			}
+		}
+	}
+	for _, s := range live {
+		for f, l := range out.defers {
+			if len(s.defers[f]) != len(l) {
+				e.note("paths with different deferred calls are joined at %s: the longer list is used", e.curPos)
+			}
+		}
+	}
 	if epochSame {
 		if has0 {
 			out.vars["$epoch"] = ep0
@@ -498,7 +561,10 @@ func (e *Exec) stmt(s ast.Stmt, st *State, fr *Frame) Flow {
 	case *ast.TypeSwitchStmt:
 		return e.typeSwitchStmt(x, st, fr)
 	case *ast.DeferStmt:
-		fr.defers = append(fr.defers, deferred{x.Call})
+		if st.defers == nil {
+			st.defers = map[*Frame][]deferred{}
+		}
+		st.defers[fr] = append(st.defers[fr], deferred{x.Call})
 		// arguments of deferred calls are evaluated now in Go; the kernels only defer
 		// argument-less unlock/done/close calls and closures, so nothing to snapshot.
 		return Flow{norm: st}
@@ -638,8 +704,10 @@ func (e *Exec) finishReturn(r *Ret, fr *Frame) {
 	if fr.top && fr.contract != nil {
 		e.runOnReturn(r, fr)
 	}
-	for i := len(fr.defers) - 1; i >= 0; i-- {
-		d := fr.defers[i]
+	dl := st.defers[fr]
+	delete(st.defers, fr)
+	for i := len(dl) - 1; i >= 0; i-- {
+		d := dl[i]
 		c := e.ctx(st, fr)
 		e.call(d.call, c, 0)
 	}
@@ -886,6 +954,16 @@ func (e *Exec) rangeStmt(x *ast.RangeStmt, st *State, fr *Frame) Flow {
 		after := e.merge(append([]*State{f.norm}, f.cont...))
 		if !after.dead() {
 			cur := e.get(after, sk, seenT)
+			if isNumeric(coll.T.Elem) {
+				// partial sum over the visited keys grows by the value of the key just visited
+				vals := e.mapVal(after, coll)
+				curN := cur.S
+				if !isAtom(curN) {
+					curN = e.vc.Define("seen", e.Sort(seenT), cur.S)
+				}
+				e.vc.Fact(fmt.Sprintf("(=> (not (select %s %s)) (= %s (+ %s (select %s %s))))", curN, kv.S,
+					e.msumTerm(fmt.Sprintf("(store %s %s true)", curN, kv.S), vals, coll.T), e.msumTerm(curN, vals, coll.T), vals, kv.S))
+			}
 			e.set(after, sk, Term{fmt.Sprintf("(store %s %s true)", cur.S, kv.S), seenT})
 			e.checkInvs(after, fr, ord, invs, "preserved", entry)
 			e.loopFrameCheck(headSnap, after, fr, ord, e.prog.pos(x))
@@ -1070,11 +1148,26 @@ func (e *Exec) typeSwitchStmt(x *ast.TypeSwitchStmt, st *State, fr *Frame) Flow 
 }
 
 func (e *Exec) selectStmt(x *ast.SelectStmt, st *State, fr *Frame) Flow {
-	// non-deterministic choice between the communication clauses
+	// non-deterministic choice between the communication clauses, constrained by channel semantics:
+	// a send on an unbuffered channel is chosen only if a receiver is parked on it; default only if no send can proceed
 	var out Flow
 	var norms []*State
 	n := len(x.Body.List)
 	choice := e.vc.FreshConst("select", "Int")
+	ord := 0
+	if fr.top && fr.loopOrd != nil {
+		ord = fr.loopOrd[x]
+	}
+	// channel terms of the send cases (evaluated once, before the choice)
+	var sendReady []string
+	for _, cc := range x.Body.List {
+		cl := cc.(*ast.CommClause)
+		if ss, ok := cl.Comm.(*ast.SendStmt); ok {
+			ch := e.eval(ss.Chan, e.ctx(st, fr))
+			sendReady = append(sendReady, e.sendReady(st, ch))
+		}
+	}
+	sendIdx := 0
 	for i, cc := range x.Body.List {
 		cl := cc.(*ast.CommClause)
 		br := st.clone()
@@ -1083,15 +1176,40 @@ func (e *Exec) selectStmt(x *ast.SelectStmt, st *State, fr *Frame) Flow {
 		} else {
 			e.assume(br, fmt.Sprintf("(>= %s %d)", choice, i))
 		}
-		if i > 0 {
-			// (earlier alternatives excluded)
-		}
 		saved := copyNames(fr)
+		key := fmt.Sprintf("%d:%d", ord, i+1)
+		if cl.Comm == nil {
+			key = fmt.Sprintf("%d:default", ord)
+			for _, rdy := range sendReady {
+				e.assume(br, "(not "+rdy+")")
+			}
+		} else if _, ok := cl.Comm.(*ast.SendStmt); ok {
+			e.assume(br, sendReady[sendIdx])
+			sendIdx++
+		}
 		if cl.Comm != nil {
-			// a blocking communication: time may pass, other threads may run
-			e.advanceTime(br, "0")
-			f := e.stmt(cl.Comm, br, fr)
-			br = f.norm
+			if _, isSend := cl.Comm.(*ast.SendStmt); !isSend {
+				// a blocking receive: time may pass, other threads may run
+				e.advanceTime(br, "0")
+				e.interfereAll(br, fr)
+				f := e.stmt(cl.Comm, br, fr)
+				br = f.norm
+			} else {
+				// the chosen send of a select is instantaneous (its readiness was assumed above)
+				ss := cl.Comm.(*ast.SendStmt)
+				e.eval(ss.Value, e.ctx(br, fr))
+			}
+		}
+		if fr.top && fr.contract != nil {
+			for _, as := range fr.contract.SelAsserts[key] {
+				sc := &Ctx{st: br, fr: fr, spec: true, old: fr.entry}
+				phi := e.evalCond(as.Expr, sc)
+				if as.Mode == "assume" {
+					e.assume(br, phi)
+					continue
+				}
+				e.assert(br, fmt.Sprintf("%s#select%s[%s]", e.fnName, strings.ReplaceAll(key, ":", "."), as.Label), "assertion", phi, as.Text, e.prog.pos(cl), e.modelVars(br, fr))
+			}
 		}
 		f := e.block(cl.Body, br, fr)
 		restoreNames(fr, saved)
@@ -1100,10 +1218,17 @@ func (e *Exec) selectStmt(x *ast.SelectStmt, st *State, fr *Frame) Flow {
 		out.cont = append(out.cont, f.cont...)
 		out.rets = append(out.rets, f.rets...)
 	}
-	// the choice values are exclusive except that "choice<0" is unreachable: constrain
 	e.vc.Fact(fmt.Sprintf("(>= %s 0)", choice))
 	out.norm = e.merge(norms)
 	return out
+}
+
+// sendReady: the condition under which a non-blocking send on ch can proceed: a buffered channel (capacity > 0) is
+// assumed to have room; an unbuffered one needs a receiver parked on it right now.
+func (e *Exec) sendReady(st *State, ch Term) string {
+	e.vc.Decl("fun:parkedrecv", "(declare-fun parkedrecv (Int Int) Bool)")
+	capArr := e.get(st, "H!$chan!cap", &Type{K: KGMap, Key: tInt, Elem: tInt})
+	return fmt.Sprintf("(or (> (select %s %s) 0) (parkedrecv %s %s))", capArr.S, ch.S, ch.S, e.now(st).S)
 }
 
 // loopHavoc: what is arbitrary at the loop head. With a `loop N modifies` clause the heap part is exactly the listed
